@@ -77,8 +77,8 @@ UNPROVED = (
     "union of the hypotheses. NOT proved, explored by the oracle on every run: (b),(c2) on URLs with capital letters "
     "(that normalize_url's steps other than the index test commute with lower-casing), "
     "platform_aware=True (D53: KF-C03-2), URLs with a redirect hint (D29: KF-C03-1), the "
-    "string-level bridging (cleaning + CPython parse/print: evaluated per case by c03_bridge / c03_lower; it fails for an "
-    "unknown scheme with an empty authority, KF-C03-5), equality of "
+    "string-level bridging (cleaning + CPython parse/print: evaluated per case by c03_bridge / c03_lower; an "
+    "unknown scheme with an empty authority, where it used to fail - KF-C03-5 - is fixed: FX-C02-f918741), equality of "
     "the printed strings vs equality of the components."
 )
 
@@ -231,7 +231,7 @@ CORPUS = [
     ["a.com/Index.html", "a.com/Index.html/index.html"],
     ["http://a.com/x%E3%80%80"],
     ["a.com?k=a=b&k=a5"],
-    # KF-C03-5: unknown scheme + empty authority
+    # FX-C02-f918741 (formerly KF-C03-5): unknown scheme + empty authority
     ["localhost://?a", "custom:///p"],
     # cleaning order: control characters go first, then the surrounding whitespace
     ["\x00 a.com/x", "a.com/x \x00", " \x00 http://a.com/x", "a.com/x"],
@@ -291,7 +291,7 @@ def _norm_parse(u, pa):
 
 def _canon_parse(u):
     try:
-        return cc.parse(cc.clean_impl(u, "https"))
+        return cc.parse_canon(cc.clean_impl(u, "https"))
     except Exception:  # noqa
         return None
 
@@ -517,32 +517,7 @@ def kf_quoted_raw_delim(case, failure):
     return False
 
 
-def kf_protocol_lost(case, failure):
-    """KF-C03-5 (genuine defect of canonicalize_url, notes/fixes/c03-canonicalize-keeps-empty-authority.diff):
-    for a scheme urllib does not know and an empty authority ('custom:///p', 'localhost://?a'), urlunsplit
-    prints the canonical form without '//' ('custom:/p'), which no ural function recognises as having a
-    protocol: it is read back as host 'custom'. Recognised: the cleaned input matches PROTOCOL_RE, its
-    canonical form does not."""
-    from ural import canonicalize_url
-    from ural.patterns import PROTOCOL_RE
-
-    t = _tail(failure)
-    if t["rel"] not in ("a", "c1", "c2"):
-        return False
-    for x in (t["u"], t["v"]):
-        if x is None:
-            continue
-        try:
-            has = nc.prepare(x, {"infer_redirection": False})["has_protocol"]
-            c = canonicalize_url(x, quoted=t["quoted"])
-        except Exception:  # noqa
-            continue
-        if has and not PROTOCOL_RE.match(c):
-            return True
-    return False
-
-
-KF_PREDICATES = [kf_redirect_hint, kf_platform_aware, kf_index_case, kf_quoted_raw_delim, kf_protocol_lost]
+KF_PREDICATES = [kf_redirect_hint, kf_platform_aware, kf_index_case, kf_quoted_raw_delim]
 
 
 # ---------------------------------------------------------------------------------------
